@@ -42,7 +42,12 @@ func setHistogram(sc *seam.Scenario, item int, counts []int, edge bool, order []
 	k := 0
 	for b, c := range counts {
 		for j := 0; j < c; j++ {
-			sc.Q[order[k]][item] = binValue(b, edge && j%2 == 0)
+			v := binValue(b, edge && j%3 == 0)
+			if edge && j%3 == 1 && b < 9 {
+				// the largest double below the bin's upper edge still belongs to bin b
+				v = math.Nextafter(binValue(b+1, true), 0)
+			}
+			sc.Q[order[k]][item] = v
 			k++
 		}
 	}
